@@ -156,6 +156,9 @@ def annotate(alg, fam, path):
     if ALGS[alg][7]:  # SM3: byte-swap loop variable declared inside the contract loop
         rules += overlay.hoist_decl_rule(p["fn_resubmit"], r"(?P<decl>unsigned int j;)", "unsigned int j;", "hoist:j")
     out, fired = overlay.apply(text, rules)
+    overlay.require_loop_count(text, p["fn_resubmit"], 2 if alg == "sm3" else 1)  # sm3: the digest byte-swap loop (VF_LOOP_EXTRA)
+    overlay.require_loop_count(text, p["fn_flush"], 1)
+    overlay.require_loop_count(text, p["fn_submit"], 0)
     out += HARNESS % p
     return out, p, fired, overlay.sha256_text(text)
 
